@@ -1,0 +1,21 @@
+// SPDX-FileCopyrightText: 2022-present Intel Corporation
+//
+// SPDX-License-Identifier: Apache-2.0
+
+//go:build verif
+
+// Contracts for the deductive verifier in /verif (govc). Comment-only: this file contains no code
+// and is excluded from every build that does not set the "verif" tag.
+
+package connection
+
+//@ import errors "github.com/onosproject/onos-lib-go/pkg/errors"
+//@ import gnmi "github.com/onosproject/onos-config/pkg/southbound/gnmi"
+
+//@ func (*Reconciler).Reconcile
+//@   props C10
+//@   requires r != nil && isType(id.Value, "gnmi.ConnID")
+//@   ensures {C10} relation-iff-conn: (topoCreates > old(topoCreates) ==> lastConnGetOK && !lastTopoGetOK && topoCreates == old(topoCreates) + 1 && lastTopoCreateIsControls && lastTopoCreateSrc == onosConfigID() && topoDeletes == old(topoDeletes)) && (topoDeletes > old(topoDeletes) ==> !lastConnGetOK && lastTopoGetOK && topoDeletes == old(topoDeletes) + 1 && topoCreates == old(topoCreates))
+//@   ensures {C10} missing-relation-is-created-or-reported: lastConnGetOK && !lastTopoGetOK && err == nil && topoCreates == old(topoCreates) ==> false
+//@   ensures {C10} stale-relation-is-deleted-or-reported: !lastConnGetOK && lastTopoGetOK && err == nil ==> topoDeletes == old(topoDeletes) + 1
+//@   ensures {C10} relation-names-connection: topoCreates > old(topoCreates) ==> lastTopoCreateID == connIDOf(conn) && lastTopoCreateTgt == connTargetOf(conn)
